@@ -110,11 +110,15 @@ def generate(rng, tier: str, index: int) -> dict:
             {
                 'state': st, 'cls': cls, 'deliv': rng.choice(['whole', 'whole', 'split', 'bytes']), 'gap': rng.choice([0.0, 0.01, 0.09, 0.12, 0.5]),
                 'delay': rng.choice([0.0, 0.01, 0.3, 1.2]), 'race': rng.choice(['none', 'none', 'none', 'fin', 'rst']), 'arg': rng.randint(0, 9),
+                # the hold time the peer proposes on this connection (the negotiated one is the smaller, per session)
+                'spk_hold': rng.choice([None, None, 3, 6, 9, 90]),
             }
         )  # fmt: skip
     return {
-        'micro_seed': rng.randint(1, 1 << 48), 'knobs': knobs(rng), 'ibgp': rng.chance(0.3), 'hold': rng.choice([0, 3, 6, 9]),
+        'micro_seed': rng.randint(1, 1 << 48), 'knobs': knobs(rng), 'ibgp': rng.chance(0.3), 'hold': rng.choice([0, 3, 6, 9, 90]),
         'openwait': rng.choice([3, 5, 8]), 'sessions': sessions,
+        # 'peer-only': the peer announces Extended Message, ExaBGP is configured not to: the limit stays 4096 (RFC 8654 4)
+        'extmsg': rng.choice(['none', 'none', 'peer-only']),
     }  # fmt: skip
 
 
@@ -194,10 +198,10 @@ def execute(plan: dict) -> dict:
     peer_as = 65001 if plan['ibgp'] else 65002
     neighbor = {
         'peer_ip': PEER, 'local_ip': LOCAL, 'local_as': 65001, 'peer_as': peer_as, 'router_id': LOCAL, 'hold': plan['hold'],
-        'families': [(1, 1)], 'caps': {'route-refresh': True}, 'api': {'processes': ['h1']},
+        'families': [(1, 1)], 'caps': {'route-refresh': True, 'extended-message': False} if plan.get('extmsg') == 'peer-only' else {'route-refresh': True}, 'api': {'processes': ['h1']},
         'static': ['route 192.0.2.0/24 next-hop self'],
     }  # fmt: skip
-    spk = Speaker(w, 'p1', PEER, peer_as, PEER, LOCAL, hold=plan['hold'], caps=speaker_caps({'asn': peer_as}))
+    spk = Speaker(w, 'p1', PEER, peer_as, PEER, LOCAL, hold=plan['hold'], caps=speaker_caps({'asn': peer_as, 'extmsg': plan.get('extmsg') == 'peer-only'}))
     w.boot(config_text([{'name': 'h1'}], [neighbor]))
     h = w.procs.helper('h1')
     queue = list(plan['sessions'])
@@ -252,7 +256,8 @@ def execute(plan: dict) -> dict:
         if not queue:
             return
         spec = queue.pop(0)
-        rec = {'spec': spec, 'sess': sess, 'injected_at': None, 'state_ok': False}
+        spk.hold = spec['spk_hold'] if spec.get('spk_hold') is not None else plan['hold']
+        rec = {'spec': spec, 'sess': sess, 'injected_at': None, 'state_ok': False, 'hold': min(plan['hold'], spk.hold) if plan['hold'] and spk.hold else 0}
         done.append(rec)
         sess.c10 = rec
         if spec['state'] == 'await-open':
@@ -337,7 +342,7 @@ def judge(w, rec, probes):
         return None
     if rec.get('survived'):
         probes[f'survived:{cls}@{state}'] = probes.get(f'survived:{cls}@{state}', 0) + 1
-        if cls in MUST_CLOSE:
+        if cls in MUST_CLOSE or (cls == 'hold-expiry' and 0 < rec.get('hold', 0) <= 9):
             return viol('C10/error-not-answered', f'{where}: RFC 4271 requires the session to be closed with NOTIFICATION {expected}; 25 s later it was still open and nothing had been sent', cls=cls, state=state)
         return None
     if got is None:
